@@ -458,7 +458,9 @@ func runC06(tier string, r *Result) {
 	ins := []string{"type", "method", "error", "T", "a", "(", ")", ":", ",", "->", "?", "[]", "[string]", "[int]", "int", "§", "interface", "#", "#\n", "# c\n", "#  \n", "#\r\n",
 		"[T]", "[strin]", "[stringy]", "[?]", "[(]", "[a]", "[ ]", "[string ]",
 		// a comment start with a NUL (or other control byte) in it: whatever follows on the line is comment text
-		"# \x00", "#\x00", "# \x1b", "#a\x00b "}
+		"# \x00", "#\x00", "# \x1b", "#a\x00b ",
+		// names with an underscore where only field names may have one
+		"T_", "My_T", "T_x", "_", "_T"}
 	for ti, d := range treeSet(depth) {
 		if !r.mine(ti) {
 			continue
@@ -534,6 +536,15 @@ func runC06(tier string, r *Result) {
 		// trailing garbage
 		for _, g := range []string{"x", "(", ")", "§", "\x00", "type", "method F", "error", "->", "interface a.b"} {
 			judge(render(ps, nil)+g, "trailing")
+		}
+	}
+	// (c0) interface names with characters that only a case-folding match takes for letters (U+212A KELVIN SIGN,
+	// U+017F LONG S), an underscore, upper case in an xn-- name
+	if r.mine(1) {
+		for _, nm := range []string{"a.b\u212a", "\u212a.b", "a.\u017f", "foo.ba\u212a.c", "a.b_c", "a_b.c", "xn--A.b", "a.b\u00e9"} {
+			for _, rest := range []string{"\nmethod F() -> ()\n", " method F() -> ()\n"} {
+				judge("interface "+nm+rest, "oddname")
+			}
 		}
 	}
 	// (c) interface names around the 255-byte limit with the first member glued to them, one blank or one newline
